@@ -4,16 +4,22 @@ from .c09 import FC_TB, FC_ASSUME, _nontrivial
 PROPS = {"C10": dict(
     module="Proofs.Properties.C10",
     theorems=[
-        "Zrnt.Proofs.C10.updateJustified_returns_partial",
+        "Zrnt.Proofs.C10.updateJustified_returns",
+        "Zrnt.Proofs.C10.updateJustified_returns_quiet",
         "Zrnt.Proofs.C10.Old.updateJustified_returns_false",
         "Zrnt.Proofs.C10.older_equal_noop",
         "Zrnt.Proofs.C10.outside_subtree_refused_finalized",
         "Zrnt.Proofs.C10.outside_subtree_refused_justified",
+        "Zrnt.Proofs.C10.prune_exact",
+        "Zrnt.Proofs.C10.sink_once_canonical",
+        "Zrnt.Proofs.C10.sink_failure_safe",
+        "Zrnt.Proofs.C10.head_in_finalized_subtree",
+        "Zrnt.Proofs.C10.post_prune_ops_total",
+        "Zrnt.Proofs.C10.updates_refine",
         "Zrnt.Proofs.C10.Old.prune_exact_false",
         "Zrnt.Proofs.C10.Old.prune_without_sink_false",
         "Zrnt.Proofs.C10.Old.post_prune_ops_total_false",
         "Zrnt.Proofs.C10.no_panic_quiet",
-        "Zrnt.Proofs.C10.updates_refine_partial",
     ],
     modes=[dict(name="fc10", stateful=True, max_shrinks=2,
                 nontrivial=_nontrivial(("justify", "nodes", "head", "just", "fin", "pinq", "block", "att", "slot")))],
@@ -22,8 +28,8 @@ PROPS = {"C10": dict(
     assumptions=FC_ASSUME,
     rule="operation sequences with UpdateJustified of every kind (ahead/equal/behind/unknown/conflicting, block or gap anchor, nil/recording/failing sink) under a 2 s watchdog; counted: justify and the post-update lines the Go side executed",
     manifest=dict(
-        level_text="Lean theorems about the code-shaped model (UpdateJustified never blocks, older/equal checkpoints are a no-op, structure invariant while nothing has been pruned; negations of the prune theorems on concrete witnesses) plus differential runs against the exact-prune specification",
-        level_note="OnPrune is defective on the unchanged tree (known finding): prune_exact and the post-prune theorems are false of the code, their negations are proved on witnesses",
+        level_text="Lean theorems about the code-shaped model (UpdateJustified returns on every state satisfying the invariants, older/equal checkpoints are a no-op, OnPrune keeps exactly the finalized subtree, reports every dropped node once with the canonical flag, is atomic under sink failure; every answer of every admissible history, finalizations included, equals the specification's; no call panics or blocks) plus differential runs against the exact-prune specification",
+        level_note="OnPrune was rewritten in /repo (commit 38d1471); the theorems are about the model of the new code, the negations on witnesses (Old.*) about the model of the old code in Zrnt/ForkChoice/Old.lean; histories with malformed insertions AND pruning are outside the proved domain (structure invariant proved for them only while the finalized checkpoint stays)",
         technique="Lean 4 proof over hand model + Go/Lean/oracle differential correspondence",
         design_ref="DESIGN.md 5/C10", engine="lean"),
 )}
